@@ -2,6 +2,7 @@ package spine
 
 import (
 	"fmt"
+	"reflect"
 	"sync"
 
 	"github.com/enbility/ship-go/logging"
@@ -66,14 +67,30 @@ func (r *FunctionData[T]) UpdateData(remoteWrite, persist bool, newData *T, filt
 		return nil, model.NewErrorTypeFromString(fmt.Sprintf("partial updates are not supported for type '%s'", util.Type[T]().Name()))
 	}
 
-	if r.data == nil {
-		r.data = new(T)
+	// the update modifies items in place: run it on a copy with its own lists, so that a failed or
+	// not persisted update leaves the data as it was and copies handed out earlier do not change
+	work := new(T)
+	if r.data != nil {
+		*work = *r.data
+		if v := reflect.ValueOf(work).Elem(); v.Kind() == reflect.Struct {
+			for i := 0; i < v.NumField(); i++ {
+				if f := v.Field(i); f.Kind() == reflect.Slice && !f.IsNil() && f.CanSet() {
+					c := reflect.MakeSlice(f.Type(), f.Len(), f.Len())
+					reflect.Copy(c, f)
+					f.Set(c)
+				}
+			}
+		}
 	}
 
-	updater := any(r.data).(model.Updater)
+	updater := any(work).(model.Updater)
 	data, success := updater.UpdateList(remoteWrite, persist, newData, filterPartial, filterDelete)
 	if !success {
 		return nil, model.NewErrorTypeFromString("update failed, likely not allowed to write")
+	}
+
+	if persist {
+		r.data = work
 	}
 
 	return data, nil
